@@ -1045,6 +1045,9 @@ class MindsDBParser(Parser):
     @_('LPAREN select RPAREN')
     @_('LPAREN union RPAREN')
     def select(self, p):
+        if hasattr(p, 'union'):
+            # a set operation can stand for a select only in parentheses: keep them for printing
+            p[1].parentheses = True
         return p[1]
 
     # WITH
